@@ -22,20 +22,20 @@ theorem View.trans {t : Nat} {a b c : State} (h1 : View t a b) (h2 : View t b c)
   ⟨h1.1.trans h2.1, fun l hl => (h1.2 l hl).trans (h2.2 l hl)⟩
 
 theorem set_other (m : Mem) (l x : Loc) (v : Val) (h : x ≠ l) : m.set l v x = m x := by
-  simp [Mem.set, h]
+  simp [Mem.set_apply, h]
 
 theorem set_same (m : Mem) (l : Loc) (v : Val) : m.set l v l = v := by
-  simp [Mem.set]
+  simp [Mem.set_apply]
 
 /-- a step changes nothing but its destination -/
 theorem exec_frame (st : Step) (m : Mem) (x : Loc) (h : x ≠ st.dst) : st.exec m x = m x := by
-  simp [Step.exec, Mem.set, h]
+  simp [Step.exec, Mem.set_apply, h]
 
 /-- a step's result depends on the memory only through its sources -/
 theorem exec_congr (st : Step) (m m' : Mem) (h : ∀ l ∈ st.srcs, m l = m' l) :
     st.exec m st.dst = st.exec m' st.dst := by
-  have : st.srcs.map m = st.srcs.map m' := List.map_congr_left h
-  simp [Step.exec, Mem.set, this]
+  have : st.srcs.map m.get = st.srcs.map m'.get := List.map_congr_left h
+  simp [Step.exec, Mem.set_apply, this]
 
 theorem mem_of_getElem? {α : Type} {l : List α} {i : Nat} {a : α} (h : l[i]? = some a) : a ∈ l :=
   List.mem_of_getElem? h
